@@ -302,11 +302,12 @@ func families(thorough bool) []family {
 }
 
 type replay struct {
-	Proc    *procCase `json:"proc,omitempty"`
-	Family  string    `json:"family"`
-	Choices []int     `json:"choices"`
-	Tier    string    `json:"tier"`
-	Case    string    `json:"case,omitempty"`
+	Nested  *nestedProg `json:"nested,omitempty"`
+	Proc    *procCase   `json:"proc,omitempty"`
+	Family  string      `json:"family"`
+	Choices []int       `json:"choices"`
+	Tier    string      `json:"tier"`
+	Case    string      `json:"case,omitempty"`
 }
 
 type envDiscard struct{ what string }
@@ -491,6 +492,17 @@ func child(env hres.Env) *hres.Result {
 		if err := json.Unmarshal(env.Replay, &rp); err != nil {
 			env.T.Fatal(err)
 		}
+		if rp.Family == "nested-resource" && rp.Nested != nil {
+			_, _, fls := runNestedProg(*rp.Nested, 0)
+			cleanTraceFiles(&wenv{w: 0})
+			res.Coverage = map[string]any{"evaluations": 1, "distinct_nontrivial": 0, "rule": "replay", "samples": []any{rp.Nested}}
+			for _, fl := range fls {
+				if fl.key != "env" {
+					res.Violations = append(res.Violations, hres.Viol{Key: fl.key, What: fl.what, Replay: rp})
+				}
+			}
+			return res
+		}
 		if rp.Family == "procedures" && rp.Proc != nil {
 			_, fl := runProcCase(*rp.Proc, 0)
 			cleanTraceFiles(&wenv{w: 0})
@@ -529,6 +541,12 @@ func child(env hres.Env) *hres.Result {
 		runProcedures(penv, res, procCov)
 		if pc, ok := procCov["procedures"].(map[string]any); ok {
 			evals += int64(pc["executions"].(int))
+		}
+	}
+	if only := os.Getenv("VERIF_C18_FAMILY"); only == "" || strings.Contains(","+only+",", ",nested-resource,") {
+		runNestedCarrier(env, res, procCov)
+		if nc, ok := procCov["nested_resource"].(map[string]any); ok {
+			evals += int64(nc["runs"].(int))
 		}
 	}
 	for fi, f := range fams {
@@ -572,6 +590,7 @@ func child(env hres.Env) *hres.Result {
 		"exhaustive":                        exhaustive,
 		"divergences":                       int(divergences),
 		"procedures":                        procCov["procedures"],
+		"nested_resource":                   procCov["nested_resource"],
 		"events_judged":                     tot.events,
 		"aborted_attempts_judged":           tot.aborted,
 		"logged_reads_judged":               tot.reads,
